@@ -1064,6 +1064,7 @@ func callBuiltin(caller *frame, callpos token.Pos, fn *ssa.Builtin, args []value
 			caller.i.p.targetPanic(caller, "close of closed channel")
 		}
 		ch.closed = true
+		caller.i.p.hbRelease(&ch.closevc)
 		return nil
 
 	case "delete": // delete(map[K]value, K)
